@@ -8,14 +8,14 @@ def plan(tier, seed):
     J = lambda i, f, **p: {"id": "C19:" + i, "module": "vf.persistjobs", "func": f, "params": p}  # noqa: E731
     jobs = [J("fjsp text [2,1]+[1,1] m=2", "text_job", shapes=[[2, 1], [1, 1]], NM=2), J("fjsp text single file", "text_job", shapes=[[1, 2]], NM=2),
             J("jssp read 2x2", "jssp_read_job", NJ=2, NM=2), J("jssp read 2x2 padded", "jssp_read_job", NJ=2, NM=2, max_ops=6),
-            J("npz generic", "npz_job", case="generic"), J("npz cvrp load_data", "npz_job", case="cvrp"), J("npz mtvrp load_data", "npz_job", case="mtvrp"), J("npz cvrp load_data bit-exact", "npz_job", case="cvrp_bits", B=2, n=1)]
+            J("npz generic", "npz_job", case="generic"), J("npz cvrp load_data", "npz_job", case="cvrp"), J("npz mtvrp load_data", "npz_job", case="mtvrp"), J("npz cvrp load_data bit-exact", "npz_job", case="cvrp_bits", B=2, n=1), J("dataset file naming (check_extension)", "crosshair_job", func="check_extension", maxlen=7)]
     if tier == "thorough":
         jobs += [J("fjsp text [1,1]+[2,2] m=2", "text_job", shapes=[[1, 1], [2, 2]], NM=2), J("fjsp text [2,1] m=3", "text_job", shapes=[[2, 1]], NM=3),
                  J("fjsp text [1,1,1]+[1,2,1] m=2", "text_job", shapes=[[1, 1, 1], [1, 2, 1]], NM=2), J("jssp read 3x2", "jssp_read_job", NJ=3, NM=2), J("jssp read 2x3", "jssp_read_job", NJ=2, NM=3),
                  J("npz generic B=1", "npz_job", case="generic", B=1, n=3), J("npz cvrp load_data B=3", "npz_job", case="cvrp", B=3, n=2)]
     return {"jobs": jobs, "level": "model_checking",
             "bounds": "FJSP text round trip (env.reset -> parser.write -> FJSPFileGenerator -> batch): <=2 instances of <=3 jobs / <=5 operations / <=3 machines, every eligibility pattern (forked), every duration (solver integers), "
-                      "both directory-listing orders; JSSP reader on 2-3 jobs x 2-3 machines with every machine assignment and duration; npz save/load and CVRP / MTVRP load_data on B<=3 symbolic batches",
+                      "both directory-listing orders; JSSP reader on 2-3 jobs x 2-3 machines with every machine assignment and duration; npz save/load and CVRP / MTVRP load_data on B<=3 symbolic batches (loaded twice); dataset file naming (check_extension) on every name of length <= 7 (CrossHair, symbolic str)",
             "outside": "deep copy / pickling of environments (torch.Generator state), Lightning checkpoint save / restore incl. baselines, generate_data.py (numpy RNG code), the bytes written by np.savez (contract stub), "
                        "text-level formatting of numbers (contract int(str(i)) == i; float-formatted durations in files are outside)"}
 
